@@ -124,4 +124,60 @@ func factsBlock() {
 		callSeq(body(fn(sf, "Shipper", "Sync")), "ReadMetaFile", "s.bucket.Exists", "checker.IsOverlapping", "s.upload", "WriteMetaFile"))
 	emitList("shipperUploadOrder", "pkg/shipper/shipper.go upload(): hard link, meta rewrite, block.Upload",
 		callSeq(body(fn(sf, "Shipper", "upload")), "hardlinkBlock", "meta.WriteToDir", "block.Upload"))
+
+	// ---- C31: pkg/block/fetcher.go DefaultDeduplicateFilter.filterGroup / contains
+	ff := parse("pkg/block/fetcher.go")
+	fg := body(fn(ff, "DefaultDeduplicateFilter", "filterGroup"))
+	containsArgs := "unknown"
+	for _, c := range blkCalls(fg, "contains") {
+		containsArgs = argsText(c)
+	}
+	emitStr("dedupContainsArgs", "pkg/block/fetcher.go filterGroup(): arguments of contains(…) — (covering, covered)", containsArgs)
+	var rets []string
+	for _, c := range blkCalls(fg, "sort.Slice") {
+		if len(c.Args) == 2 {
+			if fl, ok := c.Args[1].(*ast.FuncLit); ok {
+				ast.Inspect(fl.Body, func(n ast.Node) bool {
+					if r, ok := n.(*ast.ReturnStmt); ok && len(r.Results) == 1 {
+						rets = append(rets, text(r.Results[0]))
+					}
+					return true
+				})
+				for _, st := range fl.Body.List {
+					if is, ok := st.(*ast.IfStmt); ok {
+						rets = append(rets, "if "+text(is.Cond))
+					}
+				}
+			}
+		}
+	}
+	emitList("dedupSortLess", "pkg/block/fetcher.go filterGroup(): the sort.Slice comparator (returns, then its if-condition)", rets)
+	cf := fn(ff, "", "contains")
+	cparams := "unknown"
+	if cf != nil && cf.Type.Params != nil {
+		var ns []string
+		for _, f := range cf.Type.Params.List {
+			for _, n := range f.Names {
+				ns = append(ns, n.Name)
+			}
+		}
+		cparams = strings.Join(ns, ", ")
+	}
+	emitStr("dedupContainsSig", "pkg/block/fetcher.go contains(): parameter list", cparams)
+	cloop := "unknown"
+	if b := body(cf); b != nil {
+		ast.Inspect(b, func(n ast.Node) bool {
+			if r, ok := n.(*ast.RangeStmt); ok && cloop == "unknown" {
+				cloop = "outer range " + text(r.X)
+				if len(r.Body.List) > 1 {
+					if r2, ok := r.Body.List[1].(*ast.RangeStmt); ok {
+						cloop += "; inner range " + text(r2.X)
+					}
+				}
+				return false
+			}
+			return true
+		})
+	}
+	emitStr("dedupContainsLoops", "pkg/block/fetcher.go contains(): which slice is quantified universally (outer) / existentially (inner)", cloop)
 }
